@@ -37,14 +37,18 @@ package colors
 //@
 //@ func FprintDelete(w, s)
 //@   mode str
-//@   assigns wbuf[w]
+//@   ghost nDelPrinted = nDelPrinted + 1
+//@   assigns wbuf[w], nDelPrinted
+//@   ensures nDelPrinted == old(nDelPrinted) + 1
 //@   ensures NOCOLOR ==> wbuf[w] == old(wbuf[w]) + "- " + s
 //@   ensures !NOCOLOR ==> len(wbuf[w]) > len(old(wbuf[w])) + len(s)
 //@   ensures prefixof(old(wbuf[w]), wbuf[w])
 //@
 //@ func FprintInsert(w, s)
 //@   mode str
-//@   assigns wbuf[w]
+//@   ghost nInsPrinted = nInsPrinted + 1
+//@   assigns wbuf[w], nInsPrinted
+//@   ensures nInsPrinted == old(nInsPrinted) + 1
 //@   ensures NOCOLOR ==> wbuf[w] == old(wbuf[w]) + "+ " + s
 //@   ensures !NOCOLOR ==> len(wbuf[w]) > len(old(wbuf[w])) + len(s)
 //@   ensures prefixof(old(wbuf[w]), wbuf[w])
